@@ -639,3 +639,82 @@ def obs_match(obs, allowed_ret):
     if allowed_ret == ("exc", "*"):
         return obs[0] == "exc"
     return tuple(obs) == tuple(allowed_ret) or list(obs) == list(allowed_ret)
+
+
+# --------------------------------------------------------------------------
+# "pumped" pools: start from a large state (a hub with n links) and explore every short history of a
+# focused alphabet from there -- the complement of the small-scope pools for behaviour that depends
+# on a size threshold (an index that is only built for vertices with many links, a cache with a
+# capacity, ...).
+
+class Pumped:
+    """
+    hub = v0, spokes v1..vn (one link hub->spoke each, built through the public constructor),
+    two further vertices: late = v(n+1), elsewhere = v(n+2).
+    Focus: ops of every kind, but only on the hub, the last spoke, late, elsewhere and on the first /
+    last / newly created links.
+    """
+
+    def __init__(self, n, extra_links=2, cls="D", maxar=3, none_ends=False):
+        self.n = n
+        self.nv = n + 3
+        self.nu = 0
+        self.cls = cls
+        self.maxl = n + extra_links
+        self.maxar = maxar
+        self.none_ends = none_ends
+
+    def describe(self):
+        return {"pumped_star": self.n, "extra_links": self.maxl - self.n, "cls": self.cls,
+                "maxar": self.maxar, "none_ends": self.none_ends}
+
+    def initial(self):
+        w = SWorld(self.nv)
+        for k in range(1, self.n + 1):
+            w.l.append(LINK_CLASSES[self.cls](w.v[0], w.v[k]))
+        return w
+
+    def focus_vertices(self):
+        n = self.n
+        return sorted({0, n + 1, n + 2} | ({n} if n >= 1 else set()))
+
+    def focus_links(self, w):
+        n = self.n
+        ls = set(range(n, len(w.l)))
+        if n >= 1:
+            ls |= {0, n - 1}
+        return sorted(ls)
+
+    def ops(self, w):
+        F = self.focus_vertices()
+        E = ([None] if self.none_ends else []) + F
+        L = self.focus_links(w)
+        out = []
+        if len(w.l) < self.maxl:
+            for i in F:
+                for j in F:
+                    out.append(("new", self.cls, i, j))
+        for i in F:
+            for j in F:
+                if len(w.l) < self.maxl:
+                    out.append(("link_d", i, j, False))
+                out.append(("link_d", i, j, True))
+        for k in L:
+            for x in E:
+                out.append(("set_v1", k, x))
+                out.append(("set_v2", k, x))
+        for i in F:
+            for j in F:
+                out.append(("unlink", i, j, False))
+        for k in L:
+            for i in F:
+                out.append(("a2l", i, k))
+                out.append(("rfl", i, k))
+                out.append(("addv", k, i))
+                out.append(("ulf", k, i))
+        return out
+
+    def within_bounds(self, w):
+        if len(w.l) > self.maxl:
+            return False
+        return all(len(l.vertices) <= self.maxar for l in w.l)
